@@ -120,6 +120,49 @@ theorem h2_message_roundtrip (M : AMsg) (hM : M.OK) (declare : Option Bytes)
     rw [hbody, htrail] at h
     exact h
 
+/-- **h2_message_roundtrip, HEADERS only.** An origin message with an empty body and no
+trailers sent as 0..5 interim HEADERS and the final HEADERS frame carrying END_STREAM (no DATA
+frame at all): the response has the origin's status and fields, `ContentLength` 0, and the body
+is `http.NoBody` — every read returns `io.EOF` at once; nothing is reported as an error. -/
+theorem h2_message_roundtrip_empty (M : AMsg) (hM : M.OK)
+    (interims : List Fields) (hint : ∀ fs ∈ interims, InterimOK fs) (hn : interims.length ≤ 5) :
+    let s := ((interims.map fun fs => H2Ev.headers fs false) ++ [H2Ev.headers (M.h2Head none) true]).foldl
+      H2Stream.event (H2Stream.init false)
+    s.res = some { status := M.code, fields := M.header, declaredTrailers := [], contentLength := some 0,
+                   body := .noBody } ∧
+    s.headErr = none ∧ H2BodyKind.noBody.readFixed = some .eof := by
+  intro s
+  -- the interim responses are skipped
+  have hskip : ∀ (ints : List Fields) (j : Nat), j + ints.length ≤ 5 → (∀ fs ∈ ints, InterimOK fs) →
+      (ints.map fun fs => H2Ev.headers fs false).foldl H2Stream.event (st0 j) = st0 (j + ints.length) := by
+    intro ints
+    induction ints with
+    | nil => intro j _ _; rfl
+    | cons fs ints ih =>
+      intro j hj hok
+      simp only [List.map_cons, List.foldl_cons]
+      rw [st0_interim j fs (by simp at hj; omega) (hok fs (by simp))]
+      rw [ih (j + 1) (by simp at hj ⊢; omega) (fun g hg => hok g (by simp [hg]))]
+      simp only [List.length_cons]
+      congr 1
+      omega
+  have h0 : H2Stream.init false = st0 0 := rfl
+  have hs : s = (st0 interims.length).event (.headers (M.h2Head none) true) := by
+    simp only [s, List.foldl_append, h0, hskip interims 0 (by omega) hint, List.foldl_cons, List.foldl_nil,
+      Nat.zero_add]
+  obtain ⟨h1, h2, h3, h4⟩ := h2Head_spec M hM none
+  have hemp : M.sv.isEmpty = false := by
+    have := hM.svNe
+    cases hsv : M.sv <;> simp_all
+  have hfin := hM.final
+  refine ⟨?_, ?_, rfl⟩
+  · rw [hs]
+    simp [st0, H2Stream.event, H2Stream.processHeaders, H2Stream.init, H2Stream.handleResponse, h1, hemp,
+      hM.svCode, hfin, h2, h3, h4, clEntry, clValues, H2Stream.endStream, Pipe.closeWithError, Pipe.empty]
+  · rw [hs]
+    simp [st0, H2Stream.event, H2Stream.processHeaders, H2Stream.init, H2Stream.handleResponse, h1, hemp,
+      hM.svCode, hfin, h2, h3, h4, clEntry, clValues, H2Stream.endStream, Pipe.closeWithError, Pipe.empty]
+
 /-! ## HTTP/3 -/
 
 /-- `parseHeaders` + `updateResponseFromHeaders` on the origin's final HEADERS (the same field
@@ -583,5 +626,14 @@ example :
   obtain ⟨e, he⟩ := g4.2.2 (by intro k hk; simp at hk; omega) (by decide)
   obtain ⟨rfl, ho, ht⟩ := g4.2.1 e he
   exact ⟨he, ho, ht rfl⟩
+
+/-! HTTP/2, HEADERS only: the same status and fields with an empty body and no trailers, one
+interim 103 before. -/
+example :
+    let M0 : AMsg := { exM with body := [], trailers := [] }
+    let s := ([H2Ev.headers [([58, 115, 116, 97, 116, 117, 115], [49, 48, 51])] false,
+               H2Ev.headers (M0.h2Head none) true]).foldl H2Stream.event (H2Stream.init false)
+    (s.res.map fun r => (r.status, r.fields, r.body)) = some (200, exM.header, .noBody) := by
+  decide
 
 end Req.Props.C02
